@@ -642,7 +642,7 @@ func genCopiesCase(rt *rapid.T, e *env) *Case {
 
 func genSimCase(rt *rapid.T) *Case {
 	far := refspec.FarFutureEpoch
-	forks := rapid.SampledFrom([][4]uint64{{far, far, far, far}, {1, far, far, far}, {1, 2, far, far}, {1, 1, 2, far}, {1, 2, 2, 3}, {1, 1, 1, 2}, {2, 3, 3, 4}}).Draw(rt, "forks")
+	forks := rapid.SampledFrom([][4]uint64{{far, far, far, far}, {far, far, far, far}, {3, far, far, far}, {1, far, far, far}, {1, 2, far, far}, {1, 1, 2, far}, {1, 2, 2, 3}, {1, 1, 1, 2}, {2, 3, 3, 4}}).Draw(rt, "forks")
 	o := map[string]uint64{"SLOTS_PER_EPOCH": 4, "TARGET_COMMITTEE_SIZE": 2, "MAX_COMMITTEES_PER_SLOT": 2, "SHUFFLE_ROUND_COUNT": 3,
 		"SLOTS_PER_HISTORICAL_ROOT": 8, "EPOCHS_PER_HISTORICAL_VECTOR": 8, "EPOCHS_PER_SLASHINGS_VECTOR": 4, "EPOCHS_PER_ETH1_VOTING_PERIOD": 1,
 		"MAX_SEED_LOOKAHEAD": 1, "MIN_PER_EPOCH_CHURN_LIMIT": 4, "CHURN_LIMIT_QUOTIENT": 4, "MAX_PER_EPOCH_ACTIVATION_CHURN_LIMIT": 8,
@@ -659,11 +659,14 @@ func genSimCase(rt *rapid.T) *Case {
 	ec := simEnv(c.Sim.Config.Build(), refspec.Phase0)
 	_ = e0
 	writers, _ := splitChains(ec, true)
+	// partial participation matters: aggregation bits with gaps are what in-place filtering of a shared
+	// committee slice would corrupt; full participation leaves such aliasing invisible
+	profile := rapid.SampledFrom([]string{"full", "above23", "below23", "mixed"}).Draw(rt, "profile")
 	step := func(h int) Action {
 		if rapid.IntRange(0, 4).Draw(rt, "skip") == 0 {
 			return Action{Op: "skip", H: h, Slots: rapid.IntRange(1, 5).Draw(rt, "slots")}
 		}
-		return Action{Op: "block", H: h, Slots: rapid.SampledFrom([]int{1, 1, 1, 2}).Draw(rt, "slots"), Plan: sim.GenBlockPlan(rt, "full", 40)}
+		return Action{Op: "block", H: h, Slots: rapid.SampledFrom([]int{1, 1, 1, 2}).Draw(rt, "slots"), Plan: sim.GenBlockPlan(rt, profile, 40)}
 	}
 	for i := rapid.IntRange(1, 6).Draw(rt, "prefix"); i > 0; i-- {
 		c.Actions = append(c.Actions, step(0))
